@@ -132,6 +132,12 @@ func (ex *Exec) step(f *frame, st *State, ins ssa.Instruction) {
 				ex.oblige(f, st, "index", ex.V.srcText(x, x.Pos()), "", x.Pos(), and(app(SBool, "<=", intLit(0), iv), app(SBool, "<", iv, intLit(u.Len()))), "array index in range")
 			}
 			f.def(x, sel(xv, iv))
+		case *types.Basic:
+			// string indexing
+			if f.sweepOn() {
+				ex.oblige(f, st, "index", ex.V.srcText(x, x.Pos()), "", x.Pos(), and(app(SBool, "<=", intLit(0), iv), app(SBool, "<", iv, app(SInt, "str.len", xv))), "string index in range")
+			}
+			f.def(x, app(SInt, "str.to_code", app(SStr, "str.at", xv, iv)))
 		default:
 			f.fresh(x)
 		}
